@@ -11,11 +11,12 @@ from .model import AnalysisError
 
 
 class Node:
-    __slots__ = ('id', 'kind', 'ast', 'succ', 'pred', 'xsucc')
+    __slots__ = ('id', 'kind', 'ast', 'succ', 'pred', 'xsucc', 'pol')
 
     def __init__(self, id_, kind, astnode=None):
         self.id = id_
-        self.kind = kind  # entry exit raise stmt test for with handler
+        self.kind = kind  # entry exit raise stmt test branch for with handler finally
+        self.pol = None  # branch nodes: which way the test went
         self.ast = astnode
         self.succ = []  # normal successors
         self.xsucc = []  # exceptional successors
@@ -83,6 +84,15 @@ class CFG:
             else:
                 self._edge(node, self.raise_exit, exceptional=True)
 
+    def _branch(self, testnode, s):
+        bt = self._new('branch', s)
+        bt.pol = True
+        bf = self._new('branch', s)
+        bf.pol = False
+        self._edge(testnode, bt)
+        self._edge(testnode, bf)
+        return bt, bf
+
     def _block(self, stmts, preds):
         for s in stmts:
             preds = self._stmt(s, preds)
@@ -124,8 +134,9 @@ class CFG:
                 self._edge(p, n)
             if self._trys:
                 self._link_exc(n)
-            a = self._block(s.body, [n])
-            b = self._block(s.orelse, [n]) if s.orelse else [n]
+            bt, bf = self._branch(n, s)
+            a = self._block(s.body, [bt])
+            b = self._block(s.orelse, [bf]) if s.orelse else [bf]
             return a + b
         if isinstance(s, (ast.For, ast.AsyncFor)):
             n = self._new('for', s)
@@ -148,13 +159,14 @@ class CFG:
             if self._trys:
                 self._link_exc(n)
             brk = []
+            bt, bf = self._branch(n, s)
             self._loops.append((n, brk))
-            body_end = self._block(s.body, [n])
+            body_end = self._block(s.body, [bt])
             self._loops.pop()
             for e in body_end:
                 self._edge(e, n)
             infinite = isinstance(s.test, ast.Constant) and bool(s.test.value)
-            out = [] if infinite else (self._block(s.orelse, [n]) if s.orelse else [n])
+            out = [] if infinite else (self._block(s.orelse, [bf]) if s.orelse else [bf])
             return out + brk
         if isinstance(s, ast.Break):
             n = self._new('stmt', s)
@@ -362,7 +374,7 @@ def header_exprs(node):
         return out
     if node.kind == 'handler':
         return [a.type] if a.type is not None else []
-    if node.kind == 'finally':
+    if node.kind in ('finally', 'branch'):
         return []
     if isinstance(a, (ast.FunctionDef, ast.AsyncFunctionDef, ast.ClassDef)):
         return list(a.decorator_list)
